@@ -69,6 +69,7 @@ pub proof fn lemma_flat_empty<T>(md: Seq<Seq<T>>)
 //@invpart term @C02 at most one termination per link
 //@invpart data @C09 the sink has received the members' data in member order
 //@invpart fwd @C05 a member's error reaches the sink unchanged
+//@invpart carry @C09,C14 the flag records that the sink has pulled, so that an outstanding Pull is re-issued at every member boundary
 //@invpart pull @C14 demand conservation: the outstanding Pull is carried to the current member
 pub open spec fn cur<T>(h: Heap, g: G<T>) -> UpLink<T> { g.ups[h.i as int] }
 pub open spec fn inv_safe<T>(h: Heap, g: G<T>, c: Cap) -> bool {
@@ -90,8 +91,10 @@ pub open spec fn inv_proto<T>(h: Heap, g: G<T>, c: Cap) -> bool {
     &&& (g.dn.phase == Dn::Live ==> h.i < c.n && (cur(h, g).phase == Up::Live || (cur(h, g).phase == Up::Subscribing && h.i > 0)))
     &&& (g.dn.phase == Dn::EndedByUs <==> h.i == c.n || (h.i < c.n && cur(h, g).phase == Up::ErroredBySelf))
     &&& (g.dn.phase == Dn::EndedBySink <==> h.i < c.n && cur(h, g).phase == Up::EndedByUs)
-    &&& (h.got_pull <==> g.dn.pulls > 0)
     &&& (g.dn.phase == Dn::NotGreeted ==> g.dn.pulls == 0 && g.dn.data.len() == 0)
+}
+pub open spec fn inv_carry<T>(h: Heap, g: G<T>, c: Cap) -> bool {
+    h.got_pull <==> g.dn.pulls > 0
 }
 pub open spec fn inv_term<T>(h: Heap, g: G<T>, c: Cap) -> bool {
     &&& g.dn.terms == (if g.dn.phase == Dn::EndedByUs { 1nat } else { 0nat })
